@@ -28,7 +28,7 @@ ACTIONS = ['connect-hold', 'connect-hold', 'connect-refused',
            'connect-midframe', 'status', 'disconnect', 'disconnect',
            'disconnect-immediate', 'double-disconnect', 'disconnect-other-'
            'thread', 'reconnect-listener', 'reconnect-exc-handler',
-           'reconnect-exit-callback']
+           'reconnect-exit-callback', 'cancel-reconnect-listener']
 
 
 class Harness(object):
@@ -113,9 +113,11 @@ class Harness(object):
                 except mcserver.ScriptTimeout:
                     pass
                 io.results.put(ok)
-            elif cmd[0] == 'trigger':
+            elif cmd[0] in ('trigger', 'cancel'):
                 cid, cp = codec.encode('cb_chat', {
-                    'json': '{"text":"reconnect"}', 'position': 0,
+                    'json': '{"text":"%s"}' % (
+                        'reconnect' if cmd[0] == 'trigger' else 'cancel'),
+                    'position': 0,
                     'sender': '00000000-0000-0000-0000-000000000001'})
                 io.send_frame(cid, cp)
             elif cmd[0] == 'stop':
@@ -201,7 +203,17 @@ def stale_thread_findings(run, log, w):
             if kind == 'io.send.path' and role == foreign[0]:
                 path = pl['path']
                 break
-        if foreign[3] == 'io.send' and path.endswith(
+        if '_react>disconnect' in path or '_handle_exit>disconnect' in path \
+                or '_handle_exception>disconnect>' in path and \
+                'run>_handle_exception>disconnect' not in path:
+            # disconnect() called by *user code* running in the networking
+            # thread (a listener or callback that has itself started the new
+            # connection and now ends it): I/O on the new transport at the
+            # user's request, not a stale thread
+            run.count('foreign_io_at_user_request')
+            seen = False
+            key = None
+        elif foreign[3] == 'io.send' and path.endswith(
                 '_react>react>disconnect>_pop_packet>_write_packet'):
             key = 'stale-thread/reaction-disconnect-flushes-successor'
         elif foreign[3] in ('io.shutdown', 'io.close') and path.endswith(
@@ -213,11 +225,12 @@ def stale_thread_findings(run, log, w):
         else:
             key = 'threads/io-on-foreign-transport/%s/via:%s' % (foreign[3],
                                                                  path)
-        run.violation(key, 'an interrupted networking thread, still reacting '
-                      'to a packet it had read, did I/O on the transport of '
-                      'the successor connection', dict(
-                          w, detail=foreign,
-                          trace=compact_trace(log, foreign[4])))
+        if key is not None:
+            run.violation(key, 'an interrupted networking thread, still '
+                          'reacting to a packet it had read, did I/O on the '
+                          'transport of the successor connection', dict(
+                              w, detail=foreign,
+                              trace=compact_trace(log, foreign[4])))
     for seq, role, kind, pl in log.events:
         if kind == 'state.reactor' and pl.get('stale'):
             seen = True
@@ -277,7 +290,13 @@ def history_case(run, rng, pv, actions, idx):
         conn.register_exception_handler(exc_handler)
 
         def on_chat(packet):
-            if 'reconnect' in packet.json_data:
+            if 'cancel' in packet.json_data:
+                # start a successor from inside the networking thread and
+                # cancel it again before it has run
+                conn.disconnect()
+                conn.connect()
+                conn.disconnect()
+            elif 'reconnect' in packet.json_data:
                 conn.disconnect()
                 conn.connect()
         conn.register_packet_listener(on_chat,
@@ -450,6 +469,21 @@ def history_case(run, rng, pv, actions, idx):
                 else:
                     run.count('disconnects_of_idle')
                 state = 'idle'
+            elif action == 'cancel-reconnect-listener':
+                if state != 'active':
+                    continue
+                H.next_mode = 'hold'
+                live.cmds.put(('cancel',))
+                if not pc.wait_idle(conn, 15.0) or not pc.wait_for(
+                        lambda: live.eof, 8.0):
+                    bad('cancel-reconnect/not-idle', 'after disconnect(); '
+                        'connect(); disconnect() inside a listener the '
+                        'connection did not come to rest',
+                        threads=pc.dump_threads()[-600:])
+                    return None
+                time.sleep(0.02)
+                state = 'idle'
+                run.count('cancelled_reconnects')
             elif action == 'reconnect-listener':
                 if state != 'active':
                     continue
@@ -483,6 +517,29 @@ def history_case(run, rng, pv, actions, idx):
         if not pc.wait_idle(conn, 15.0):
             run.violation('disconnect/thread-alive', 'thread alive at the end',
                           w)
+        else:
+            # "always reusable": whatever the history was, the object can
+            # connect once more
+            H.next_mode = 'hold'
+            n_ios = len(H.ios)
+            try:
+                conn.connect()
+                ok = pc.wait_for(lambda: len(H.ios) > n_ios and getattr(
+                    H.ios[-1], 'phase', '') == 'play', 10.0)
+                if not ok or not H.alive(H.ios[-1]):
+                    run.violation('reuse/final-connect-failed', 'after the '
+                                  'history the object could not establish a '
+                                  'working session', dict(
+                                      w, exc=repr(rec.exceptions[-1:])))
+            except Exception as e:
+                run.violation('reuse/final-connect-raised', 'after the history'
+                              ' connect() raised', dict(w, error=repr(e)))
+            run.count('final_reuse_probes')
+            try:
+                conn.disconnect()
+            except Exception:
+                pass
+            pc.wait_idle(conn, 10.0)
         run.count('histories')
         run.count('net_threads', sum(1 for r in set(rec.log.roles.values())
                                      if r.startswith('net#')))
@@ -605,6 +662,81 @@ def handover_gap_case(run, rng, pv, variant):
                 conn.disconnect(immediate=True)
             except Exception:
                 pass
+
+
+def check_vs_lock_case(run, rng, pv, second_call):
+    """Delay injection: thread B is held inside connect() (inside the
+    connection's lock) on an idle object while thread A calls status() or
+    connect().  A's call must be refused and must leave B's connection
+    undisturbed - whether the activity check runs before or after waiting for
+    the lock decides that."""
+    from minecraft.exceptions import InvalidState
+    H = Harness(pv)
+    rec = pc.Recorder()
+    conn = None
+    w = {'pv': pv, 'second_call': second_call}
+    b_in_connect = threading.Event()
+    try:
+        K = pc.monitored_connection_class()
+        conn = K('127.0.0.1', H.server.port, username='vfuser',
+                 allowed_versions={pv}, handle_exception=rec.handle_exception,
+                 handle_exit=rec.handle_exit)
+        conn.vf_log = rec.log
+        calls = [0]
+
+        def hook():
+            calls[0] += 1
+            if calls[0] == 1:
+                b_in_connect.set()
+                time.sleep(0.08)
+        conn.vf_connect_hook = hook
+        errs = []
+
+        def b():
+            try:
+                conn.connect()
+            except Exception as e:
+                errs.append(e)
+        tb = threading.Thread(target=b, name='user-b')
+        tb.start()
+        if not b_in_connect.wait(8.0):
+            return 'thread B never entered connect()'
+        raised = None
+        try:
+            if second_call == 'status':
+                conn.status(handle_status=False, handle_ping=False)
+            else:
+                conn.connect()
+        except Exception as e:
+            raised = e
+        tb.join(10.0)
+        if errs:
+            return 'thread B: %r' % errs[0]
+        run.count('check_vs_lock_cases')
+        if not isinstance(raised, InvalidState):
+            run.violation('check-vs-lock/not-refused', 'a call made while '
+                          'another thread was inside connect() was not '
+                          'refused with InvalidState', dict(
+                              w, raised=repr(raised)))
+        ok = pc.wait_for(lambda: H.ios and getattr(H.ios[0], 'phase', '')
+                         == 'play', 10.0)
+        time.sleep(0.02)
+        if len(H.ios) != 1:
+            run.violation('check-vs-lock/opened-tcp', 'the refused call opened'
+                          ' a TCP connection of its own (the activity check '
+                          'ran before the lock was held)', dict(
+                              w, connections=len(H.ios),
+                              raised=repr(raised)))
+        elif not ok or not H.alive(H.ios[0]):
+            run.violation('check-vs-lock/disturbed', 'the connection started '
+                          'by the other thread no longer works', dict(
+                              w, raised=repr(raised),
+                              exc=repr(rec.exceptions[:1])))
+        return None
+    finally:
+        H.stop()
+        if conn is not None:
+            pc.safe_disconnect(conn)
 
 
 def stress_case(run, rng, pv, idx):
@@ -759,6 +891,18 @@ def run(run):
         run.case(('gap', i, variant))
         if err:
             run.inconclusive_because('hand-over gap %d: %s' % (i, err))
+    for i in range(40 if thorough else 8):
+        if not run.mine(i):
+            continue
+        err = None
+        for attempt in range(3):
+            err = check_vs_lock_case(run, rng, rng.choice((757, 404)),
+                                     ('status', 'connect')[i % 2])
+            if err is None:
+                break
+        run.case(('check-vs-lock', i))
+        if err:
+            run.inconclusive_because('check-vs-lock %d: %s' % (i, err))
     for i in range(1600 if thorough else 32):
         if not run.mine(i):
             continue
@@ -776,3 +920,5 @@ def run(run):
     run.require('disconnects_of_idle', 5)
     run.require('stress_runs', 2)
     run.require('gap.reached', 2)
+    run.require('check_vs_lock_cases', 2)
+    run.require('final_reuse_probes', 20)
